@@ -3,7 +3,7 @@
    All statements are about the model instantiated with the Unicode tables of the Go toolchain
    (Consts.v): go_is_letter, go_is_number, go_to_lower. *)
 From Coq Require Import List Bool NArith.
-From C11 Require Import Model ProofsText ProofsGo.
+From C11 Require Import Model ProofsText ProofsPath ProofsGo.
 Open Scope N_scope.
 
 (* Lower-casing agrees on both sides for EVERY byte string (valid UTF-8 or not, including runes whose
@@ -76,6 +76,37 @@ Example C11_text_nonvacuous :
     [[107; 107; 95; 195; 160; 98]; [217; 163; 120; 42; 121]] /\
   has_rune WildcardRune (indexed_part TyText c 0 v) = false.
 Proof. exact text_nonvacuous. Qed.
+
+(* Path fields, any value, any limits. With p = the part of the value within the size limit: the
+   tokenizer emits nothing (skipped) or exactly one token per leading path of p cut at a separator plus
+   one for p itself, each lower-cased unless case-sensitive — although the code lower-cases the
+   prefixes in place on the shared buffer, or through the bytes.Map fallback leaving a half-converted
+   buffer behind. The query built from any of these paths is exactly the corresponding token and finds
+   it (same hypotheses as for keyword fields, on that path). *)
+Theorem C11_path_prefix_findable :
+  forall c fmax v,
+    let p := indexed_part TyPath c fmax v in
+    let toks := fst (path_tokenize go_to_lower c fmax v) in
+    if skipped TyPath c fmax v then toks = []
+    else
+      toks = map (go_ptok c) (path_prefixes [] p ++ [p])
+      /\ (forall q, In q (path_prefixes [] p ++ [p]) ->
+            has_rune WildcardRune q = false -> (cs c = false \/ valid_utf8 q = true) ->
+            qkw go_to_lower (cs c) q = [TText (go_ptok c q)] /\
+            query_finds [qkw go_to_lower (cs c) q] toks = true).
+Proof. exact go_path_consistent. Qed.
+Print Assumptions C11_path_prefix_findable.
+
+Example C11_path_nonvacuous :
+  let c := ICfg false false 72 32768 in
+  let v := [47; 86; 97; 114; 47; 76; 195; 150; 71; 47; 196; 176; 120] in
+  skipped TyPath c 0 v = false /\
+  path_prefixes [] (indexed_part TyPath c 0 v) = [[47; 86; 97; 114]; [47; 86; 97; 114; 47; 76; 195; 150; 71]] /\
+  fst (path_tokenize go_to_lower c 0 v) =
+    [[47; 118; 97; 114]; [47; 118; 97; 114; 47; 108; 195; 182; 103];
+     [47; 118; 97; 114; 47; 108; 195; 182; 103; 47; 105; 120]] /\
+  has_rune WildcardRune v = false.
+Proof. exact path_nonvacuous. Qed.
 
 (* Field existence: the indexer stores the title (field name or multi-type title, raw bytes) under
    `_exists_`; the parser forces case sensitivity on that field, so for a valid UTF-8 title (titles are
